@@ -25,6 +25,9 @@ def _find_setter(tree):
     raise TranslateError("_Beam.yAxis setter not found")
 
 
+OPAQUE = object()
+
+
 class _Interp:
     def __init__(self, argname):
         self.nscale = 0
@@ -37,6 +40,8 @@ class _Interp:
     def ev(self, n, env):
         if isinstance(n, ast.Name):
             if n.id in env:
+                if env[n.id] is OPAQUE:
+                    raise TranslateError("yAxis setter: the stored axis depends on %s, whose definition is outside the vector grammar" % n.id)
                 return env[n.id]
             raise TranslateError("yAxis setter: unbound name %s" % n.id)
         if isinstance(n, ast.Attribute) and isinstance(n.value, ast.Name) and n.value.id == "self" and n.attr == "xAxis":
@@ -92,18 +97,20 @@ class _Interp:
         assigned to self.__yAxis / self._Beam__yAxis is appended to out."""
         env = dict(env)
         for k, st in enumerate(stmts):
-            if isinstance(st, ast.Expr):
-                continue                                   # print(...), self.Need_Update(), docstrings
+            if isinstance(st, (ast.Expr, ast.Pass, ast.Assert)):
+                continue                                   # print(...), self.Need_Update(), docstrings, asserts
             if isinstance(st, ast.Assign) and len(st.targets) == 1:
                 t = st.targets[0]
                 if isinstance(t, ast.Name):
+                    # a local whose value is outside the vector grammar (a norm, a comparison, a named
+                    # boolean condition, a string ...) is bound to OPAQUE: harmless as long as it only
+                    # feeds branch tests / messages; using it in the stored axis is a TranslateError
+                    saved = self.nscale
                     try:
                         env[t.id] = self.ev(st.value, env)
                     except TranslateError:
-                        if t.id in ("crossProd",):          # only used by the (uninterpreted) test
-                            env[t.id] = None
-                        else:
-                            raise
+                        self.nscale = saved
+                        env[t.id] = OPAQUE
                     continue
                 if isinstance(t, ast.Attribute) and isinstance(t.value, ast.Name) and t.value.id == "self" and t.attr.endswith("__yAxis"):
                     v = self.ev(st.value, env)
